@@ -174,6 +174,7 @@ def run_instance(inst):
         sqlcommon.install()
         d = sqlcommon.scratch_dir()
     cnt = [0]
+    holder = {}
     name = f"{backend_name} {kind} {shape} max_elmt={max_elmt} coords={layout or 'symbolic'}"
 
     def scenario():
@@ -193,6 +194,8 @@ def run_instance(inst):
             # focus on sorting / truncation: everything lies within the radius (radius 100, query within [-5,5]^2)
             eng.assume(z3.And(r2 == 10000, E.lift(loc[0]) >= -5, E.lift(loc[0]) <= 5, loc[1].t >= -5, loc[1].t <= 5))
         r = eng.sqrt_of(r2, name="r")
+        holder.clear()
+        holder.update(coords=coords, loc=loc, r2=r2)
         res = query(mp, kind, loc, r, max_elmt)
         return dict(coords=coords, loc=loc, r=r, r2=r2, res=res)
 
@@ -273,6 +276,14 @@ def run_instance(inst):
     findings = load_findings(PID)
 
     def confirm(eng, model, v, cname):
+        if not isinstance(v, dict):
+            # the query raised on this path: a statement the SQL stand-in cannot interpret is a harness limit (exit 3, undecided),
+            # anything else is replayed on doubles with the real sqlite3 like every other candidate
+            if isinstance(v, sqlshim.SqlShimError):
+                raise RuntimeError(f"the SQL stand-in cannot interpret a statement issued by the code under test ({v}); this check cannot decide this tree")
+            if not holder:
+                return None
+            v = dict(holder)
         cc = {n: tuple(E.model_value(model, c.t) if E.is_sym(c) else float(c) for c in p) for n, p in v['coords'].items()}
         loc = tuple(E.model_value(model, c.t) if E.is_sym(c) else float(c) for c in v['loc'])
         r = max(E.model_value(model, v['r2']), 0.0) ** 0.5
